@@ -32,6 +32,15 @@ def endpoint_line_cost(pt, metric):
     xr = float(np.max(np.abs(x))) / float(np.min(gaps))          # float64 error of y_hat is ~eps*|m*x| ~ eps*xr*|dy|
     e = LD(1e-16)
     if metric in ('smape', 'rpd', 'rmspe'):
+        zero = np.asarray(y == 0)
+        if np.any(zero):
+            # exact zeros in y (idle periods, empty buckets): the term of such a sample is |y_hat|/eps-like - huge but perfectly
+            # well defined as long as the line is clearly away from 0 there (float64 error of y_hat ~ eps*xr*ymax) and the
+            # zero is not an end point (where y_hat is itself a rounding residue)
+            delta = 256 * EPS * (xr + 1.0) * ymax
+            if zero[0] or zero[-1] or not np.all(np.abs(np.asarray(yh, dtype=float)[zero]) >= 1e6 * delta + 1e-6):
+                return None
+            ymin = float(np.min(y[~zero]))
         if not ymin >= 1e-3 * ymax:
             return None
         if metric == 'smape':
@@ -66,3 +75,27 @@ def endpoint_line_cost(pt, metric):
         return v, 1e-6 * abs(v) + 4 * abs_y * float(np.sqrt(rss * len(y)) + abs_y * len(y)) / float(tss) + 64 * EPS \
             + 64 * (EPS * ymax) ** 2 * len(y) / float(tss)
     raise ValueError(metric)
+
+
+def farthest_tol(seg, kind):
+    """How far below the true maximum the chord distance of the point chosen as 'farthest' may legitimately lie: the forward
+    error of a cross-product based distance, 64*eps*max_i(|v0*w1_i| + |v1*w0_i|)/|v| with v the chord and w_i = p_i - p_0
+    (differences of the coordinates, so it is translation invariant AND follows the anisotropy of the data: byte-sized x
+    against ratios in y leave a noise floor of ~1e-14, not 1e-2).  For the closed-segment distance the bound only applies
+    while every interior point projects well inside the chord; otherwise (and for a degenerate chord) the coarser
+    64*eps*(largest coordinate difference + chord length) is returned."""
+    import numpy as np
+    EPS = float(np.finfo(float).eps)
+    P = np.asarray(seg, dtype=np.longdouble)
+    v = P[-1] - P[0]
+    w = P - P[0]
+    L = float(np.hypot(v[0], v[1]))
+    coarse = max(64 * EPS * (float(np.max(np.abs(w))) + L), EPS)
+    if not (L > 0) or len(P) < 3:
+        return coarse
+    if kind != 'perpendicular':
+        t = np.asarray((w[1:-1, 0] * v[0] + w[1:-1, 1] * v[1]) / (v[0] * v[0] + v[1] * v[1]), dtype=float)
+        if not (np.all(t > 1e-6) and np.all(t < 1 - 1e-6)):
+            return coarse
+    fine = 64 * EPS * float(np.max(np.abs(v[0] * w[:, 1]) + np.abs(v[1] * w[:, 0]))) / L
+    return max(min(fine, coarse), EPS)
